@@ -474,15 +474,23 @@ orc_x86_emit_prologue (OrcCompiler *compiler)
     if (compiler->use_frame_pointer) {
       orc_x86_emit_mov_reg_reg (compiler, 4, X86_ESP, X86_EBP);
     }
-    orc_x86_emit_mov_memoffset_reg (compiler, 4, 8, X86_ESP, compiler->exec_reg);
+    /* the executor pointer lives in %ebp, which is saved above, or - with a
+     * frame pointer - in %ebx, which is callee-saved as well and has to be
+     * pushed before it is loaded */
+    if (compiler->exec_reg != X86_EBX) {
+      orc_x86_emit_mov_memoffset_reg (compiler, 4, 8, X86_ESP, compiler->exec_reg);
+    }
     if (compiler->used_regs[X86_EDI]) {
       orc_x86_emit_push (compiler, 4, X86_EDI);
     }
     if (compiler->used_regs[X86_ESI]) {
       orc_x86_emit_push (compiler, 4, X86_ESI);
     }
-    if (compiler->used_regs[X86_EBX]) {
+    if (compiler->used_regs[X86_EBX] || compiler->exec_reg == X86_EBX) {
       orc_x86_emit_push (compiler, 4, X86_EBX);
+    }
+    if (compiler->exec_reg == X86_EBX) {
+      orc_x86_emit_mov_memoffset_reg (compiler, 4, 8, X86_EBP, compiler->exec_reg);
     }
   }
 
@@ -512,7 +520,7 @@ orc_x86_emit_epilogue (OrcCompiler *compiler)
     }
     orc_x86_emit_pop (compiler, 8, X86_EBP);
   } else {
-    if (compiler->used_regs[X86_EBX]) {
+    if (compiler->used_regs[X86_EBX] || compiler->exec_reg == X86_EBX) {
       orc_x86_emit_pop (compiler, 4, X86_EBX);
     }
     if (compiler->used_regs[X86_ESI]) {
